@@ -246,7 +246,7 @@ class VSock:
     """Timed scripted transport.  events: (t, "D", bytes) | (t, "EOF") | (t, "R") — t relative to the moment the
     handshake response is sent.  Answers the opening request like sim.sock.HandshakeSock unless refuse/status set."""
 
-    def __init__(self, world, events=(), status=None, silent_after=True, tls_pending=False):
+    def __init__(self, world, events=(), status=None, silent_after=True, tls_pending=False, pong_latency=None):
         self.w = world
         self.script = list(events)
         self.inbox = []              # (arrival, kind, data)
@@ -261,6 +261,8 @@ class VSock:
         self.silent_after = silent_after
         self.tls_pending = tls_pending
         self.pending_buf = b""       # bytes "already decrypted" (TLS): not visible to select()
+        self.pong_latency = pong_latency   # k-th client ping is answered after pong_latency[k] seconds (None = never)
+        self.npings = 0
 
     # -- time helpers
     def _avail(self):
@@ -282,6 +284,20 @@ class VSock:
         data = bytes(data)
         self.log.append((self.w.now, "w", data))
         self.written += data
+        if self.answered and self.pong_latency is not None and len(data) >= 2 and (data[0] & 0x0F) == 9:
+            # a client ping: the peer's pong arrives pong_latency[k] later (the reply cannot precede the ping)
+            n = data[1] & 0x7F
+            key = data[2:6]
+            payload = bytes(b ^ key[i % 4] for i, b in enumerate(data[6:6 + n]))
+            k = self.npings
+            self.npings += 1
+            lat = self.pong_latency[k] if k < len(self.pong_latency) else None
+            if lat is not None:
+                self.inbox.append((self.w.now + lat, "D", bytes([0x8A, len(payload)]) + payload))
+                self.inbox.sort(key=lambda e: e[0])
+            if self.w.me() not in (None, "main"):
+                # a write from the ping thread is a point where the reading loop may run first
+                self.w.block(lambda: True, None, desc="send")
         if not self.answered:
             self.request += data
             if b"\r\n\r\n" in self.request:
